@@ -38,7 +38,7 @@
                                                            2 iv, 3 both; how: 1 zeros, 2 0xFF, 3 other bytes) before the
                                                            first and again before the second Encrypt; observed
                                                            (ctor_panicked run_panicked key_after_ctor iv_after_ctor enc1
-                                                            enc2 dec table_pristine table_call1 table_call2 ivbuf1 ivbuf2)
+                                                            enc2 dec table_for_the_pristine_key_and_iv)
             (11 ctor key iv seed len)                      an exported constructor called directly (aes, 3des, sm4,
                                                            twofish, xtea, salsa20, none); observed as for 5
    observed = (panicked (out ...))        for 0
@@ -295,9 +295,9 @@ Fixpoint fcheck (i1 : list N) (ops obs : list sx) : verdict :=
   end.
 
 (* kind 13: ownership of the argument buffers.  oi = the model's instance for the pristine
-   key / iv.  Frame on the arguments (11); what the model says with the IV buffer read at call
-   time: table t1 / t2 built for the buffer's content at the first / second call (mismatch 16);
-   the property: the same as for the pristine arguments, table t0 (12). *)
+   key / iv.  The constructor must leave its arguments alone (11); with the caller's buffers
+   overwritten before each call every ciphertext is still the one for the pristine values,
+   table t0, and the decryption still returns the message (12). *)
 Definition inst_entry (i : inst) : option (Z * nat) :=
   match i with
   | IBlock c k _ _ => Some (cid_num c, length k)
@@ -306,26 +306,22 @@ Definition inst_entry (i : inst) : option (Z * nat) :=
   end.
 
 Definition check_owner (oi : option inst) (key iv m : list N) (cp rp : Z) (ka va enc1 enc2 dec : list N)
-  (t0 t1 t2 : list sx) (iv1 iv2 : list N) : verdict :=
+  (t0 : list sx) : verdict :=
   match oi with
   | None => check_that (Z.eqb cp 1) (VMismatch 10)
   | Some i =>
       if Z.eqb cp 1 then VPropFail 7 else
       let vargs := check_that (nlist_eqb ka key && nlist_eqb va iv) (VPropFail 11) in
-      let runs_with v := match i with IBlock c _ _ _ => negb (length v <? cid_bs c) | _ => true end in
-      if negb (runs_with iv && runs_with iv1 && runs_with iv2) then vargs
+      let runs := match i with IBlock c _ _ _ => negb (length iv <? cid_bs c) | _ => true end in
+      if negb runs then vargs
       else if Z.eqb rp 1 then vjoin vargs (VPropFail 7)
       else
         match inst_entry i with
         | None => vjoin vargs (check_that (nlist_eqb enc1 m && nlist_eqb enc2 m && nlist_eqb dec m) (VPropFail 6))
         | Some (c, n) =>
-            let byref := match i with IBlock _ _ _ _ => true | _ => false end in
-            match table_find c n t0, table_find c n (if byref then t1 else t0), table_find c n (if byref then t2 else t0) with
-            | Some r0, Some r1, Some r2 =>
-                vjoin vargs
-                  (vjoin (check_that (nlist_eqb enc1 r0 && nlist_eqb enc2 r0 && nlist_eqb dec m) (VPropFail 12))
-                         (check_that (nlist_eqb enc1 r1 && nlist_eqb enc2 r2) (VMismatch 16)))
-            | _, _, _ => VMismatch 12
+            match table_find c n t0 with
+            | Some r0 => vjoin vargs (check_that (nlist_eqb enc1 r0 && nlist_eqb enc2 r0 && nlist_eqb dec m) (VPropFail 12))
+            | None => VMismatch 12
             end
         end
   end.
@@ -412,9 +408,8 @@ Definition check (c : sx) : verdict :=
       if Z.eqb panicked 1 then VPropFail 7
       else check_that (forallb (fun b => match b with SInt 0%Z => true | _ => false end) bad) (VPropFail 10)
   | SList [SList [SInt 13%Z; SInt direct; SBytes name; SBytes key; SBytes iv; SInt _; SInt _; SInt seed; SInt len];
-           SList [SInt cp; SInt rp; SBytes ka; SBytes va; SBytes enc1; SBytes enc2; SBytes dec;
-                  SList t0; SList t1; SList t2; SBytes iv1; SBytes iv2]] =>
+           SList [SInt cp; SInt rp; SBytes ka; SBytes va; SBytes enc1; SBytes enc2; SBytes dec; SList t0]] =>
       check_owner (if Z.eqb direct 1 then new_direct name key iv else new_crypt name key iv)
-                  key iv (lcg seed len) cp rp ka va enc1 enc2 dec t0 t1 t2 iv1 iv2
+                  key iv (lcg seed len) cp rp ka va enc1 enc2 dec t0
   | _ => VBad
   end.
